@@ -82,7 +82,7 @@ CHECKS = {
         "exhaustive input-history trie (all histories of length <= T over a 5-letter adversarial alphabet) on the real neuron "
         "classes, with a history monitor and the documented one-step equation as oracles",
         "For all eight neuron classes x 2 hyper-parameter sets x dt {1,0.5} x refrac_t {0,.5,1,1.5,2,3}dt x refrac_lock x adaptation "
-        "on/off, every input history of length 4 (quick) / 5 (thorough) over {0, just-below-threshold, just-above-threshold, 1e6, "
+        "on/off, every input history of length 4 (quick) / 6 (thorough) over {0, just-below-threshold, just-above-threshold, 1e6, "
         "strongly negative} is stepped on the real neuron; each step is checked against a history monitor (silent window, locked "
         "voltage, refrac>=0, spike attribute == output) and against the documented update/threshold/reset equation in float64; the "
         ">= comparator is checked on exactly representable states.",
